@@ -370,3 +370,152 @@ def literal_union(t):
             out |= r
         return out
     return None
+
+
+# ---------------------------------------------------------------------------
+# seeing through private helpers (opt-in, per rule)
+
+def _fn_of(decl):
+    """function node (params/body) of a ClassMethod / FunctionDeclaration / function expression"""
+    if decl is None:
+        return None
+    if decl.get("type") in ("ClassMethod", "PrivateMethod"):
+        return decl["function"]
+    return decl
+
+
+def resolve_local_call(mod, cname, call):
+    """(function node, owner class name or None) when `call` is this.m(..) / C.m(..) / f(..) and the target is a
+    method of class `cname` (or of the named class C) or a top-level function of the module; else None.  Interface
+    methods reached through other objects (child.validate(..)) are never resolved."""
+    c = unparen(call["callee"])
+    if c.get("type") == "Identifier":
+        d = mod.functions.get(c["value"])
+        return (_fn_of(d), None) if d is not None and d.get("body") is not None else None
+    if c.get("type") == "MemberExpression" and c["property"]["type"] in ("Identifier", "PrivateName"):
+        o = unparen(c["object"])
+        nm = c["property"]["value"] if c["property"]["type"] == "Identifier" else "#" + c["property"].get("id", {}).get("value", "?")
+        owner = None
+        if o.get("type") == "ThisExpression":
+            owner = cname
+        elif o.get("type") == "Identifier" and o["value"] in mod.classes:
+            owner = o["value"]
+        seen = set()
+        while owner and owner in mod.classes and owner not in seen:
+            seen.add(owner)
+            m = mod.classes[owner].methods.get(nm)
+            if m is not None:
+                f = m["function"]
+                return (f, owner) if f.get("body") is not None else None
+            owner = mod.classes[owner].extends
+    return None
+
+
+def _simple_arg(e):
+    e = unparen(e)
+    t = e.get("type")
+    if t in ("Identifier", "ThisExpression", "StringLiteral", "NumericLiteral", "BooleanLiteral", "NullLiteral"):
+        return True
+    if t == "MemberExpression" and e["property"]["type"] == "Identifier":
+        return _simple_arg(e["object"])
+    return False
+
+
+def _declared_names(fn):
+    out = set()
+    for n in walk(fn.get("body") or {}):
+        if n["type"] == "VariableDeclarator":
+            for b in walk(n["id"]):
+                if b["type"] == "Identifier":
+                    out.add(b["value"])
+        elif n["type"] in FUNC_TYPES:
+            for p in n.get("params", []):
+                for b in walk(p):
+                    if b["type"] == "Identifier":
+                        out.add(b["value"])
+        elif n["type"] == "CatchClause" and n.get("param"):
+            for b in walk(n["param"]):
+                if b["type"] == "Identifier":
+                    out.add(b["value"])
+    return out
+
+
+def _assigned_names(fn):
+    out = set()
+    for n in walk(fn.get("body") or {}):
+        if n["type"] == "AssignmentExpression":
+            l = unparen(n["left"])
+            if l.get("type") == "Identifier":
+                out.add(l["value"])
+        elif n["type"] == "UpdateExpression":
+            l = unparen(n["argument"])
+            if l.get("type") == "Identifier":
+                out.add(l["value"])
+    return out
+
+
+def inline_clone(fn, call):
+    """deep copy of the helper's body in which every parameter that receives a simple argument (identifier, this.x,
+    literal), is never reassigned and cannot be captured by a local declaration is replaced by that argument.
+    Parameters that cannot be substituted keep their own names (the argument stays visible at the call)."""
+    import copy
+    params = []
+    for p in fn.get("params", []):
+        pat = p.get("pat", p)
+        params.append(pat["value"] if pat.get("type") == "Identifier" else None)
+    args = [a["expression"] for a in call["arguments"] if not a.get("spread")]
+    declared = _declared_names(fn)
+    assigned = _assigned_names(fn)
+    sub = {}
+    for i, pn in enumerate(params):
+        if pn is None or i >= len(args) or pn in assigned or not _simple_arg(args[i]):
+            continue
+        free = {x["value"] for x in walk(args[i]) if x["type"] == "Identifier"}
+        if free & declared:
+            continue
+        sub[pn] = args[i]
+    body = copy.deepcopy(fn["body"])
+
+    def rewrite(n):
+        if isinstance(n, list):
+            return [rewrite(x) for x in n]
+        if not isinstance(n, dict):
+            return n
+        if n.get("type") == "Identifier" and n.get("value") in sub:
+            return copy.deepcopy(sub[n["value"]])
+        if n.get("type") == "MemberExpression":
+            # never rewrite the property name of a non-computed member access
+            out = dict(n)
+            out["object"] = rewrite(n["object"])
+            if n["property"].get("type") == "Computed":
+                out["property"] = rewrite(n["property"])
+            return out
+        if n.get("type") == "KeyValueProperty":
+            out = dict(n)
+            out["value"] = rewrite(n["value"])
+            if n["key"].get("type") == "Computed":
+                out["key"] = rewrite(n["key"])
+            return out
+        if n.get("type") == "Identifier" or "type" not in n:
+            return {k: rewrite(v) if k not in ("span",) else v for k, v in n.items()}
+        return {k: (rewrite(v) if k not in ("span", "ctxt") else v) for k, v in n.items()}
+    return rewrite(body), sub
+
+
+def walk_inl(mod, cname, node, depth=2, _stack=(), private_only=False):
+    """walk() that, at calls of local helpers (see resolve_local_call), also yields the nodes of the helper's body
+    with arguments substituted for parameters (inline_clone).  `depth` levels, never recursive."""
+    for n in walk(node):
+        yield n
+        if depth > 0 and n["type"] == "CallExpression":
+            r = resolve_local_call(mod, cname, n)
+            if r is None:
+                continue
+            fn, owner = r
+            if id(fn) in _stack:
+                continue
+            if private_only and owner is None and unparen(n["callee"]).get("value") in mod.exports:
+                continue
+            body, _ = inline_clone(fn, n)
+            for x in walk_inl(mod, owner or cname, body, depth - 1, _stack + (id(fn),), private_only):
+                yield x
